@@ -98,6 +98,32 @@ def slow_user_sessions():
     return out
 
 
+LIMITED_USERS = [
+    {"id": "u1", "login": "u1", "pw": "pw1", "max": 1, "perms": [], "home": [], "base": ["A"]},
+    {"id": "u3", "login": "u3", "pw": "", "max": 1, "perms": [], "home": [], "base": ["B"]},
+    {"id": "u2", "login": "u2", "pw": "", "max": 0, "perms": [], "home": ["h"], "base": ["B"]},
+]
+
+
+def refused_user_sessions():
+    """USER refused because the account's connection limit is reached (530): the session has no user - a PASS that follows is out
+    of sequence, whatever the password, and nothing is served; neither after the slot has become free again."""
+    out = []
+    probes = [["send", 1, "PWD"], ["send", 1, "MLST f"], ["send", 1, "MKD zz"], ["send", 1, "PASV"]]
+    for acct, holder in (("u1", [["send", 2, "USER u1"], ["send", 2, "PASS pw1"]]), ("u1", [["send", 2, "USER u1"]]), ("u3", [["send", 2, "USER u3"]])):
+        for pw in ("pw1", "nope", "", None):
+            for before in ([], [["send", 1, "USER u2"]], [["send", 1, "USER u2"], ["send", 1, "CWD /h"]]):
+                st = [["connect", 2]] + holder + [["connect", 1]] + before + [["send", 1, "USER " + acct]]
+                if pw is not None:
+                    st.append(["send", 1, ("PASS " + pw).strip()])
+                st += probes + [["send", 2, "QUIT"]]
+                if pw is not None:
+                    st.append(["send", 1, ("PASS " + pw).strip()])
+                st += probes + [["send", 1, "USER " + acct], ["send", 1, "PASS pw1"], ["send", 1, "PWD"]]
+                out.append(st)
+    return out
+
+
 def twin_sessions():
     """Two control sessions, one of them not (or not yet, or no longer) logged in, sending the same command in the same instant -
     in both orders, and one to three event-loop iterations apart."""
@@ -141,6 +167,7 @@ def run(tier, seed):
         corecheck.validate(chk, gen.std_cfg(ns=1, users=SLOW_USERS, slow_user=delays), gen.STD_TREE, su if tier != "quick" or tag != "even" else su[::2],
                            label="slow-user:" + tag)
     corecheck.validate(chk, gen.std_cfg(ns=1, users=SLOW_USERS, slow_user={"*": 2}, slow_auth=3), gen.STD_TREE, sl + su[::3], label="slow-both")
+    corecheck.validate(chk, gen.std_cfg(ns=2, users=LIMITED_USERS), gen.STD_TREE, refused_user_sessions(), label="refused-user")
     tw = twin_sessions()
     corecheck.validate(chk, gen.std_cfg(ns=2, users=[u for u in gen.STD_USERS if u["id"] != "anon"]), gen.STD_TREE, tw if tier != "quick" else tw[::2], label="twins")
     chk.cov["rule"] = ("all command histories of length <= 2 and seeded ones of length 3..6 over %d command kinds (every login "
